@@ -68,8 +68,19 @@ def run(work, pid, timeout=900):
             out = ''
             status = 'timeout'
         failed = [l.strip() for l in out.split('\n') if l.startswith('Failed Checks:')][:5]
+        playback = ''
+        if status == 'failed':
+            # counterexample: the concrete values Kani found, as the unit test it generates
+            try:
+                p2 = subprocess.run(['cargo', 'kani', '-p', 'verif-kani', '--harness', h, '-Z', 'concrete-playback',
+                                     '--concrete-playback=print'], cwd=ws, env=env, stdout=subprocess.PIPE,
+                                    stderr=subprocess.STDOUT, text=True, timeout=timeout)
+                m = re.search(r'Concrete playback unit test.*?```(.*?)```', p2.stdout, re.S)
+                playback = (m.group(1) if m else '')[:3000]
+            except subprocess.TimeoutExpired:
+                pass
         rows.append({'harness': h, 'kind': kind, 'bound': note, 'status': status, 'time_s': round(time.time() - t0, 1),
-                     'failed_checks': failed, 'tail': out[-600:] if status in ('error',) else ''})
+                     'failed_checks': failed, 'concrete_playback': playback, 'tail': out[-600:] if status in ('error',) else ''})
     return rows
 
 
